@@ -18,7 +18,7 @@ pub fn generate(prop: &str, tier: &str, seed: u64) -> Vec<Vec<String>> {
         "C05" => spec::gen_c05(tier, seed),
         "C17" => spec::gen_c17(tier, seed),
         "C12" => spec::gen_c12(tier, seed),
-        "C13" => spec::gen_c13(tier, seed),
+        "C13" => { let mut v = spec::gen_c13(tier, seed); v.extend(stdout::gen_syslog(tier, seed)); v }
         "C01" => { let mut v = flwgen::gen_c01(tier, seed); v.extend(flwgen::gen_c01_unrotatable(tier, seed)); v }
         "C03" => conc::gen_c03(tier, seed),
         "C20" => { let mut v = fmt::gen_c20(tier, seed); v.extend(robust::gen_c20_recursive(tier, seed)); v.extend(robust::gen_bufframe(tier, seed)); v }
